@@ -506,6 +506,8 @@ class NpProxy:
     def full(self, shape, fill_value, dtype=None, **kw):
         if dtype is not None and np.dtype(dtype).kind not in "fc":
             return np.full(shape, fill_value, dtype=dtype)
+        if not contains_sym(fill_value):
+            return np.full(shape, fill_value, dtype=dtype)
         a = np.empty(shape, dtype=object)
         a[...] = fill_value
         return a.view(SymArray)
